@@ -270,10 +270,18 @@ def r3_status(P, rep, ctx):
     dsfi = P.func(f"{D}.DirDiff.status")
     ds = F(ctx, dsfi)
     nd = dsfi.params[1]
-    none = ds.tests(f"{nd} is None")
-    r = {ds.x(v): i for i, v in ds.returns() if v is not None}
     U, DEL = "DiffNode.Status.unchanged", f"{nd}.status()"
-    ok = bool(none) and set(r) == {U, DEL} and ds.hit_before(r[U], edges=none) and ds.hit_before(r[DEL], edges=ds.neg(none)) and all(ds.hit_before(ds.g.exit, nodes=[r[U]], src_edge=e) for e in none)
+    try:
+        dpaths = ds.value_paths()
+    except ValueError as e:
+        raise AnalysisError(f"C18.R3: DirDiff.status: {e}")
+    ok = bool(dpaths)
+    seen_ = set()
+    for lits, v, n_ in dpaths:
+        isn = [tv for k, tv in lits if k == f"{nd} is None"]
+        ok = ok and len(isn) == 1 and norm(v) == (U if isn[0] else DEL)
+        seen_ |= set(isn)
+    ok = ok and seen_ == {True, False}
     rep.check(ok, "C18.R3", dsfi.qual, "a path without diff node is unchanged", dsfi.loc(), construct="DirDiff.status", message="DirDiff.status(None) is not `unchanged` / does not delegate to node.status()")
     gtfi = P.func(f"{D}.DirDiff.get")
     gt = F(ctx, gtfi)
